@@ -235,7 +235,7 @@ Lemma append_node_R L p bound c kind r :
      AttrsIn (d_attrs (c_doc c)) ar (fst r) (snd r)) ->
   okP (append_node kind r c)
       (fun x => RCore L (snd r) (snd r) (snd x) /\ c_cur_attrs (snd x) = c_cur_attrs c /\
-                c_after_text (snd x) = c_after_text c).
+                c_entities (snd x) = c_entities c).
 Proof.
   intros HC Hr Hp Hb Hel.
   eapply okP_weaken; [apply append_node_okP; eapply RCore_cur_lt; eauto|].
@@ -246,18 +246,19 @@ Qed.
 
 Lemma append_text_R L q c t r :
   RInv L false q c -> VR r -> q <= snd r -> (c_entities c = [] -> q <= fst r) ->
-  okP (append_text t r c) (RInv L false (snd r)).
+  okP (append_text t r c) (fun c' => RInv L false (snd r) c' /\ c_entities c' = c_entities c).
 Proof.
   intros [HC HT] Hr Hq Hb. unfold append_text. cbn [TagOk] in *.
   destruct (c_after_text c) as [|x l] eqn:Ea.
   - eapply okP_bind.
     { eapply okP_bind; [eapply (append_node_R L q q c _ r); eauto; intros; discriminate|].
       intros [id c1] (H1 & H2 & H3). cproj. apply okP_ret.
-      instantiate (1 := fun c1 => RCore L (snd r) (snd r) c1 /\ c_cur_attrs c1 = []). cbv beta.
-      split; [exact H1|congruence]. }
-    intros c1 [H1 H2]. apply okP_ret. split; [|exact H2].
+      instantiate (1 := fun c1 => RCore L (snd r) (snd r) c1 /\ c_cur_attrs c1 = [] /\
+                                  c_entities c1 = c_entities c). cbv beta.
+      split; [exact H1|split; congruence]. }
+    intros c1 (H1 & H2 & H3). apply okP_ret. split; [|cproj; exact H3]. split; [|exact H2].
     eapply RCore_same; [exact H1|reflexivity|comps].
-  - cbn [bind]. apply okP_ret. split; [|exact HT].
+  - cbn [bind]. apply okP_ret. split; [|reflexivity]. split; [|exact HT].
     eapply RCore_same; [eapply RCore_mono; [| |exact HC]; lia|reflexivity|comps].
 Qed.
 
@@ -265,7 +266,9 @@ Lemma process_cdata_R L q c t r :
   RInv L false q c -> VR r -> q <= snd r -> (c_entities c = [] -> q <= fst r) ->
   okP (process_cdata text t r c) (RInv L false (snd r)).
 Proof.
-  intros. unfold process_cdata. cbv zeta. destruct (mem_b 13 _); apply (append_text_R L q); assumption.
+  intros. unfold process_cdata. cbv zeta.
+  destruct (mem_b 13 _); (eapply okP_weaken; [apply (append_text_R L q); assumption|]);
+    cbv beta; intros c' [H' _]; exact H'.
 Qed.
 
 (* ---- steps that do not touch nodes, attributes or the bookkeeping we look at ---- *)
@@ -478,7 +481,7 @@ Proof.
   cbn [bind].
   destruct (rev (c_parent_prefixes c2)) as [|pp0 ppr] eqn:Erev; [apply okP_panic|]. cbn [bind].
   eapply okP_bind_eq. intros nodes' Hupd. apply upd_range_end_spec in Hupd.
-  ok_step fail.
+  apply okP_bind_any. intros _.
   destruct (nd_parent pnd) as [id|] eqn:Epar; [|apply okP_err_from].
   destruct (removelast _) as [|q0 qr] eqn:Erl; [apply okP_panic|]. apply okP_ret.
   assert (Hne : c_parent_prefixes c2 <> []).
@@ -489,6 +492,65 @@ Proof.
   - lia.
   - rewrite <- Erl. exact Hlen.
   - lia.
+Qed.
+
+Lemma RInv_mono L p p' c : p <= p' -> RInv L false p c -> RInv L false p' c.
+Proof. intros Hp [HC HT]. split; [eapply RCore_mono; eauto|exact HT]. Qed.
+
+(* ---- entering and leaving the expansion of an entity ---- *)
+Definition level_of (c : context) : level :=
+  {| lv_nodes0 := d_nodes (c_doc c); lv_base := c_parent_id c;
+     lv_floor := len_N (c_parent_prefixes c); lv_top := false |}.
+
+Lemma frame_rel_refl nodes : frame_rel nodes nodes.
+Proof. intros i nd H. eauto. Qed.
+
+Lemma level_enter L p q c c' :
+  RInv L false p c -> c_entities c <> [] ->
+  c_doc c' = c_doc c -> c_entities c' = c_entities c -> c_parent_id c' = c_parent_id c ->
+  c_parent_prefixes c' = c_parent_prefixes c -> c_cur_attrs c' = c_cur_attrs c ->
+  c_entity_floor c' = len_N (c_parent_prefixes c) ->
+  RInv (level_of c) false q c'.
+Proof.
+  intros [HC HT] Hne E1 E2 E3 E4 E5 E6. pose proof (RCore_cur_lt _ _ _ _ HC) as Hcur.
+  destruct HC as (H1 & H2 & H3 & H4 & H5 & H6 & H7 & H8 & H9 & _).
+  split; [|cbn [TagOk] in *; congruence].
+  unfold RCore. rewrite E1, E2, E3, E4, E6.
+  repeat (split; [assumption|]).
+  split; [intros i nd0 Hi; cbn [level_of lv_nodes0] in Hi; eauto|].
+  split.
+  { split; [|cbn; discriminate]. cbn [level_of lv_nodes0 lv_base]. apply nth_N_some. exact Hcur. }
+  repeat (split; [assumption|]).
+  split; [intros _; exact Hne|]. split; [reflexivity|].
+  exists []. split; [cbn; lia|]. split; [reflexivity|]. split; [constructor|].
+  intros He. contradiction.
+Qed.
+
+Lemma level_exit L p q c c2 c3 :
+  RInv L false p c -> c_entities c <> [] ->
+  RInv (level_of c) false q c2 -> len_N (c_parent_prefixes c2) = c_entity_floor c2 ->
+  c_doc c3 = c_doc c2 -> c_entities c3 = c_entities c2 -> c_parent_id c3 = c_parent_id c2 ->
+  c_parent_prefixes c3 = c_parent_prefixes c2 -> c_cur_attrs c3 = c_cur_attrs c2 ->
+  c_entity_floor c3 = c_entity_floor c ->
+  RInv L false p c3 /\ c_entities c3 <> [].
+Proof.
+  intros [HC HT] Hne [HC2 HT2] Hlen E1 E2 E3 E4 E5 E6.
+  destruct HC as (H1 & H2 & H3 & H4 & H5 & H6 & H7 & H8 & H9 & opens & HP).
+  destruct HC2 as (G1 & G2 & G3 & G4 & G5 & G6 & G7 & G8 & G9 & opens2 & HP2).
+  cbn [level_of lv_top lv_floor lv_base lv_nodes0] in *.
+  specialize (G8 eq_refl).
+  assert (Hfr : frame_rel (d_nodes (c_doc c)) (d_nodes (c_doc c2))) by exact G4.
+  destruct HP2 as (Hc2 & Hl2 & _). cbn [lv_top lv_floor level_of] in Hc2.
+  assert (opens2 = []) by (destruct opens2; [reflexivity|cbn [length] in Hc2; lia]). subst opens2.
+  cbn [linked level_of lv_base] in Hl2.
+  split; [|congruence]. split; [|cbn [TagOk] in *; congruence].
+  unfold RCore. rewrite E1, E2, E3, E4, E6.
+  repeat (split; [assumption|]).
+  split; [eapply Frame_trans; eauto|].
+  repeat (split; [assumption|]).
+  split; [intros _; exact G8|]. split; [assumption|].
+  exists opens. rewrite Hl2. replace (len_N (c_parent_prefixes c2)) with (len_N (c_parent_prefixes c)) by lia.
+  eapply PathOk_frame; [exact G8|exact Hfr|exact HP].
 Qed.
 
 End Builder.
